@@ -83,7 +83,9 @@ type interposer struct {
 }
 
 func (ip *interposer) touch(method string) {
-	if method == "Supervisor.Keepalive" || method == "Worker.TaskStats" || method == "Worker.Stats" {
+	// keepalives, machine status polling (Supervisor.*) and task statistics polling go on for as
+	// long as the session lives; they are not progress of a run
+	if strings.HasPrefix(method, "Supervisor.") || method == "Worker.TaskStats" || method == "Worker.Stats" {
 		return
 	}
 	atomic.StoreInt64(&ip.lastAct, time.Now().UnixNano())
